@@ -436,3 +436,87 @@ pub fn run_c02(ctx: Ctx) -> i32 {
     }
     report.finish()
 }
+
+// ---------------------------------------------------------------------------------------------
+// C16 part b: compiled SETs, wire order and presence-bit order against the reference
+
+const RULE_C16B: &str = "part b (compiled): a zoo family of SET (and SEQUENCE) definitions with 2..5 components - mixed explicit tags of the four classes, untagged builtin types, untagged references to tagged / untagged definitions and to an untagged CHOICE, with and without extension marker, each in three root permutations - compiled through the real pipeline; generated values (proptest); UPER bits and presence-bit order == reference, which orders canonically on its own (X.680 8.6). Non-trivial: canonical order != textual order; distinct = (type, bits).";
+
+pub fn run_c16b(ctx: Ctx) -> i32 {
+    let report = Report::new(ctx.clone(), RULE_C16B);
+    let zoo = load_zoo();
+    let replay = |c: &J| -> Result<(), Fail> {
+        if c["part"].as_str() != Some("b") {
+            return Ok(());
+        }
+        let ei = find_entry(&zoo, c["module"].as_str().unwrap_or(""), c["type"].as_str().unwrap_or("")).ok_or_else(|| ("harness:replay".to_string(), "type not in the compiled zoo".to_string()))?;
+        let v: Value = serde_json::from_value(c["value"].clone()).map_err(|e| ("harness:replay".to_string(), e.to_string()))?;
+        check_c02(&zoo, ei, &v, &mut Vec::new()).map(|_| ())
+    };
+    if let Some(path) = &ctx.replay {
+        let j = read_replay(path);
+        report.eval(1);
+        match replay(&j["case"]) {
+            Ok(()) => println!("replay: case passes"),
+            Err((key, msg)) => {
+                report.fail(&key, &msg, j["case"].clone());
+            }
+        }
+        return report.finish();
+    }
+    let tier = ctx.tier;
+    let family: Vec<usize> = (0..zoo.entries.len()).filter(|i| zoo.entries[*i].group == "c16" && (zoo.entries[*i].def.name.starts_with("Set") || zoo.entries[*i].def.name.starts_with("Seq"))).collect();
+    let per_entry = tier.pick(300u32, 5000u32);
+    let bad = run_in_workers(&report, 16, std::time::Duration::from_secs(tier.pick(600, 7200)), &|report: &Report| {
+        let cfg = value_cfg(report, true, tier);
+        report.ctx.my_shards(family.len() as u64).par_iter().for_each(|&k| {
+            if report.too_many_violations() {
+                return;
+            }
+            let ei = family[k as usize];
+            let e = &zoo.entries[ei];
+            let reordered = match &e.def.ty {
+                Type::Set(f) => refcodec::comp_order(&e.module, f, true).map(|o| o.iter().enumerate().any(|(a, b)| a != *b)).unwrap_or(false),
+                _ => false,
+            };
+            let strat = gen::def_value_strategy(&e.module, &e.def, cfg);
+            let mut runner = report.ctx.runner("c16b", ei as u64, per_entry);
+            let mut local = Local::default();
+            let failed = std::cell::Cell::new(false);
+            let cell = std::cell::RefCell::new(&mut local);
+            let result = runner.run(&strat, |v| {
+                let mut notes = Vec::new();
+                let res = check_c02(&zoo, ei, &v, &mut notes);
+                if !failed.get() {
+                    let mut l = cell.borrow_mut();
+                    l.eval();
+                    if let Ok(Some((bits, _))) = &res {
+                        l.class(if reordered { "b:set-reordered" } else if matches!(e.def.ty, Type::Set(_)) { "b:set-textual" } else { "b:sequence" });
+                        if reordered {
+                            l.nontrivial(hash_of(&(ei, bits)));
+                            if l.samples.len() < 1 {
+                                l.sample(json!({"part": "b", "type": e.id(), "asn1": vcore::print::type_text(&e.def.ty), "value": v.brief(), "bits": bitstr(bits)}));
+                            }
+                        }
+                    }
+                }
+                res.map(|_| ()).map_err(|(key, msg)| {
+                    failed.set(true);
+                    TestCaseError::fail(format!("{key}\u{1}{msg}"))
+                })
+            });
+            if let Err(proptest::test_runner::TestError::Fail(reason, v)) = result {
+                let r = reason.message().to_string();
+                let (key, msg) = r.split_once('\u{1}').unwrap_or(("unknown", &r));
+                report.fail(&format!("b:{key}"), msg, json!({"part": "b", "module_text": e.text(), "module": e.module.name, "type": e.def.name, "asn1": vcore::print::type_text(&e.def.ty), "value_brief": v.brief(), "value": value_json(&v)}));
+            }
+            report.merge_local(&mut local);
+        });
+    });
+    dead_workers_are_infra(&report, &bad);
+    report.extra("part_b_types", json!(family.len()));
+    if report.class_count("b:set-reordered") == 0 && report.violation_count() == 0 {
+        report.infra("generator fault: no SET whose canonical order differs from the textual order");
+    }
+    report.finish()
+}
